@@ -5,6 +5,7 @@ mod specs;
 mod e2_dag;
 mod e1;
 mod e4_state;
+mod e3_fs;
 
 use common::{install_panic_hook, replay, run_check};
 
@@ -29,6 +30,7 @@ fn main() {
         "e2-dag" => replay(&e2_dag::DagEngine, &text, path),
         "e1-build" => replay(&e1::BuildEngine, &text, path),
         "e4-state" => replay(&e4_state::StateEngine, &text, path),
+        "e3-fs" => replay(&e3_fs::FsEngine, &text, path),
         other => { eprintln!("unknown engine {other:?} in {path}"); 2 }
       }
     }
